@@ -5,6 +5,7 @@ import (
 	"fmt"
 	"os"
 	"runtime"
+	"runtime/pprof"
 	"strings"
 	"time"
 
@@ -732,6 +733,39 @@ func C14Determinism(name string, n int, prefix []int) {
 					}
 					break
 				}
+			}
+		}
+	}
+}
+
+// LeakProbe builds and drops n worlds of a scenario (prefix length cut to k ops) and prints the live heap (debugging aid).
+func LeakProbe(name string, n, k int) {
+	for _, sc := range c14Scenarios() {
+		if !strings.Contains(sc.Name, name) {
+			continue
+		}
+		scn := *sc.Scn
+		if k < len(scn.Prefix) {
+			scn.Prefix = scn.Prefix[:k]
+		}
+		var ms runtime.MemStats
+		for i := 0; i <= n; i++ {
+			w, err := world.New(&scn)
+			if err != nil {
+				fmt.Println(err)
+				return
+			}
+			w.Close()
+			if i%(n/4) == 0 {
+				runtime.GC()
+				runtime.ReadMemStats(&ms)
+				fmt.Printf("%s prefix %d: after %d worlds live heap %d KB, objects %d\n", sc.Name, len(scn.Prefix), i, ms.HeapAlloc/1024, ms.HeapObjects)
+			}
+		}
+		if path := os.Getenv("VERIF_HEAPPROF"); path != "" {
+			if fh, err := os.Create(path); err == nil {
+				_ = pprof.WriteHeapProfile(fh)
+				fh.Close()
 			}
 		}
 	}
